@@ -7,7 +7,7 @@ import z3
 
 from vf import kit, core
 from vf.kit import F32, F64, arg, hyps_of, EXP, PI, LN2
-from vf.model_scipp import DTypeError, DimensionError, Var, Buf
+from vf.model_scipp import DTypeError, DimensionError, Var, Buf, I64
 from vf.units import UnitError, NAMED, symbolic_unit, Unit
 
 MOD = 'peaks.model'
@@ -178,22 +178,27 @@ def polynomial(chk, mod):
     chk.function(MOD, 'PolynomialModel._call')
     ux = symbolic_unit('k_x', NAMED['m'])
     uy = symbolic_unit('k_y', NAMED['counts'])
-    for deg in range(1, 7):
-        m = mod.PolynomialModel(degree=deg)
-        mk = lambda: (arg('x', 'length', unit=ux, kind='real', dims=('x',)),
-                      {f'a{i}': arg(f'a{i}', 'one', unit=uy / ux ** i, kind='real') for i in range(deg + 1)})
-        paths = chk.explore(lambda: m(mk()[0], **mk()[1]), base=[], catch=CATCH)
-        pre = f'{MOD}:PolynomialModel._call'
-        ok = len(paths) == 1 and paths[0].kind == 'return'
-        chk.decided(f'{pre}/no-raise[degree={deg}]', ok, detail=repr(paths[0].value)[:200] if paths else '')
-        if not ok:
-            continue
-        x, ps = mk()
-        want = sum(ps[f'a{i}'].val * kit.units._ipow(x.val, i) if i else ps['a0'].val for i in range(deg + 1))
-        chk.prove(f'{pre}/sum-a_i*x^i[degree={deg}]', hyps_of(paths[0]), paths[0].value.val == want, timeout=60)
-        chk.decided(f'{pre}/unit[degree={deg}]', paths[0].value.unit == uy, detail=str(paths[0].value.unit))
-        chk.decided(f'{pre}/frame[degree={deg}]', not kit.frame_violations(paths[0]), detail=str(kit.frame_violations(paths[0])))
-        chk.decided(f'{pre}/param-names[degree={deg}]', m.param_names == {f'a{i}' for i in range(deg + 1)} and m.degree == deg)
+    # the independent variable may be double, single or integer (channel / bin numbers); the coefficients are double.
+    # The sum a_i x^i is then a double in every case, and integer-typed low-order coefficients change nothing.
+    for xdt, tag in ((F64, ''), (F32, ',x:float32'), (I64, ',x:int64')):
+        for deg in range(1, 7) if xdt == F64 else (1, 3, 6):
+            m = mod.PolynomialModel(degree=deg)
+            mk = lambda: (arg('x', 'length', unit=ux, kind='real' if xdt != I64 else 'int', dims=('x',), dtype=xdt),
+                          {f'a{i}': arg(f'a{i}', 'one', unit=uy / ux ** i, kind='real') for i in range(deg + 1)})
+            paths = chk.explore(lambda: m(mk()[0], **mk()[1]), base=[], catch=CATCH)
+            pre = f'{MOD}:PolynomialModel._call'
+            ok = len(paths) == 1 and paths[0].kind == 'return'
+            chk.decided(f'{pre}/no-raise[degree={deg}{tag}]', ok, detail=repr(paths[0].value)[:200] if paths else '')
+            if not ok:
+                continue
+            x, ps = mk()
+            want = sum(ps[f'a{i}'].val * kit.units._ipow(x.val, i) if i else ps['a0'].val for i in range(deg + 1))
+            chk.prove(f'{pre}/sum-a_i*x^i[degree={deg}{tag}]', hyps_of(paths[0]), paths[0].value.val == want, timeout=60)
+            chk.decided(f'{pre}/unit[degree={deg}{tag}]', paths[0].value.unit == uy, detail=str(paths[0].value.unit))
+            chk.decided(f'{pre}/result-is-double[degree={deg}{tag}]', paths[0].value.dtype == F64, detail=str(paths[0].value.dtype))
+            chk.decided(f'{pre}/frame[degree={deg}{tag}]', not kit.frame_violations(paths[0]), detail=str(kit.frame_violations(paths[0])))
+            if xdt == F64:
+                chk.decided(f'{pre}/param-names[degree={deg}]', m.param_names == {f'a{i}' for i in range(deg + 1)} and m.degree == deg)
     for bad in (0, -1):
         try:
             mod.PolynomialModel(degree=bad)
@@ -379,13 +384,23 @@ def _guess_failures(n, seed):
         pm = mm.PolynomialModel(degree=deg, prefix=pf)
         coef = rng.normal(size=deg + 1)
         xs_ = rng.uniform(-2, 2, 7)
+        # x may be double, single or integer (channel numbers); low-order coefficients may be integer-typed
+        xkind = ('float64', 'float32', 'int64')[i % 3]
+        if xkind == 'int64':
+            xs_ = rng.integers(-3, 4, 7).astype('float64')
+        elif xkind == 'float32':
+            xs_ = xs_.astype('float32').astype('float64')
+        int_low = i % 4 == 1
+        if int_low:
+            coef[:deg] = np.round(coef[:deg] * 3)
         try:
-            pv = pm(sc.array(dims=['x'], values=xs_, unit='m'), **{f'{pf}a{k}': sc.scalar(float(c), unit=sc.Unit('counts') / sc.Unit('m') ** k) for k, c in enumerate(coef)})
+            pv = pm(sc.array(dims=['x'], values=xs_.astype(xkind), unit='m'),
+                    **{f'{pf}a{k}': sc.scalar(int(c) if int_low and k < deg else float(c), unit=sc.Unit('counts') / sc.Unit('m') ** k) for k, c in enumerate(coef)})
         except Exception as e:
             fails.append({'id': f'case{i}', 'index': i, 'seed': seed, 'problem': f'polynomial raised {type(e).__name__}: {e}'})
             continue
-        if not np.allclose(pv.values, np.polynomial.polynomial.polyval(xs_, coef), rtol=1e-10, atol=1e-12) or pv.unit != sc.Unit('counts'):
-            fails.append({'id': f'case{i}', 'index': i, 'seed': seed, 'problem': f'polynomial of degree {deg} differs from sum a_i x^i'})
+        if not np.allclose(pv.values, np.polynomial.polynomial.polyval(xs_, coef), rtol=1e-10, atol=1e-12) or pv.unit != sc.Unit('counts') or str(pv.dtype) != 'float64':
+            fails.append({'id': f'case{i}', 'index': i, 'seed': seed, 'problem': f'polynomial of degree {deg} with {xkind} x{" and integer-typed low-order coefficients" if int_low else ""} differs from sum a_i x^i in double precision (dtype {pv.dtype})'})
             continue
         da = sc.DataArray(y, coords={'x': xv})
         try:
